@@ -411,6 +411,56 @@ fn import_case(run: &mut Run, f: &str, bytes: &[u8], tag: &str) -> Option<Vec<(u
     }
 }
 
+/// `Palette::import_palette`: dispatch on the extension of the file name
+fn importext_case(run: &mut Run, ext: &str, bytes: &[u8], expect: Option<&str>) {
+    let b = bytes.to_vec();
+    let name = if ext.is_empty() { "palette".to_string() } else { format!("palette.{}", ext) };
+    let r = catch(move || Palette::import_palette(std::path::Path::new(&name), &b).map(|p| (observe(&p), p.color_iter().map(|c| c.get_rgb()).collect::<Vec<_>>())));
+    let op = format!("palette importext {} {}", shex(ext), hex(bytes));
+    let inp = format!("importext:{}:{}", shex(ext), hex(bytes));
+    run.count(&format!("importext/{}", ext.to_ascii_lowercase()));
+    run.nontrivial(fnv(inp.bytes().map(|b| b as u64)));
+    let got = match r {
+        Ok(Ok((obs, cols))) => {
+            run.case(&op, &obs);
+            Some(cols)
+        }
+        Ok(Err(_)) => {
+            run.case(&op, "err");
+            None
+        }
+        Err(loc) => {
+            run.case(&op, &format!("panic:{}", panic_site(&loc)));
+            run.oracle_fail(&format!("panic/{}", panic_site(&loc)), &inp, "import_palette panicked");
+            return;
+        }
+    };
+    // the property on the implementation: the extension picks the importer of that format, whatever its letter case
+    if let Some(f) = expect {
+        let b = bytes.to_vec();
+        let ff = f.to_string();
+        let want = catch(move || Palette::load_palette(&fmt_of(&ff), &b).ok().map(|p| p.color_iter().map(|c| c.get_rgb()).collect::<Vec<_>>())).ok().flatten();
+        if got != want {
+            run.oracle_fail(&format!("import_palette/{}", f), &inp, &format!("import_palette(\"x.{}\") gives {:?} colours, load_palette({}) gives {:?}", ext, got.as_ref().map(|c| c.len()), f, want.as_ref().map(|c| c.len())));
+        }
+    }
+}
+
+fn colorhex_case(run: &mut Run, text: &str) {
+    let inp = format!("fromhex:{}", shex(text));
+    let t = text.to_string();
+    let r = catch(move || Color::from_hex(&t).map(|c| c.get_rgb()));
+    run.count("color/from_hex");
+    match r {
+        Ok(Ok(c)) => run.case(&format!("palette fromhex {}", shex(text)), &hex6(c)),
+        Ok(Err(_)) => run.case(&format!("palette fromhex {}", shex(text)), "err"),
+        Err(loc) => {
+            run.case(&format!("palette fromhex {}", shex(text)), &format!("panic:{}", panic_site(&loc)));
+            run.oracle_fail(&format!("panic/{}", panic_site(&loc)), &inp, "Color::from_hex panicked");
+        }
+    }
+}
+
 fn file_case(run: &mut Run, spec: &PalSpec, f: &str) {
     let inp = format!("file:{}:{}:{}:{}:{}", f, shex(&spec.title), shex(&spec.author), shex(&spec.description), colors_spec(&spec.colors));
     let s2 = spec.clone();
@@ -559,6 +609,13 @@ fn replay_one(run: &mut Run, inp: &str) {
         Some("import") if p.len() >= 3 => {
             import_case(run, p[1], &unhex(p[2]), "replay");
         }
+        Some("stream") if p.len() >= 3 => crate::c16s::stream_replay(run, p[1], p[2]),
+        Some("tnd") if p.len() >= 2 => crate::c16s::tnd_case(run, &unhex(p[1])),
+        Some("filepal") if p.len() >= 3 => crate::c16s::filepal_case(run, p[1], &unhex(p[2])),
+        Some("rawfile") if p.len() >= 3 => crate::c16s::file_palette(run, p[1], &unhex(p[2]), None, inp.trim()),
+        Some("helpers") if p.len() >= 3 => crate::c16s::helper_case(run, &unhex(p[1]), p[2].parse().unwrap_or(0)),
+        Some("importext") if p.len() >= 3 => importext_case(run, &unshex(p[1]), &unhex(p[2]), None),
+        Some("fromhex") if p.len() >= 2 => colorhex_case(run, &unshex(p[1])),
         Some("file") if p.len() >= 6 => {
             let spec = PalSpec { title: unshex(p[2]), author: unshex(p[3]), description: unshex(p[4]), colors: parse_colors_spec(&p[5..].join(":")) };
             file_case(run, &spec, p[1]);
@@ -577,6 +634,15 @@ pub fn run(run: &mut Run, seed: u64, thorough: bool, replay: Option<&str>, corpu
     }
     let mut rng = Rng::new(seed);
     let scale = if thorough { 25 } else { 1 };
+
+    // ---- the call sites: byte streams through the ANSI parser, Tundra colour records, palette blocks in files, helpers
+    {
+        let mut r2 = Rng::new(seed ^ 0x16C0_FFEE);
+        crate::c16s::stream_cases(run, &mut r2, thorough);
+        crate::c16s::tnd_cases(run, &mut r2, thorough);
+        crate::c16s::filepal_cases(run, &mut r2, thorough);
+        crate::c16s::helper_cases(run, &mut r2, thorough);
+    }
 
     // ---- op sequences on palettes of 0..=300 colours
     for sz in [0usize, 1, 2, 15, 16, 17, 255, 256, 257, 300] {
@@ -739,6 +805,33 @@ pub fn run(run: &mut Run, seed: u64, thorough: bool, replay: Option<&str>, corpu
                 }
             }
         }
+    }
+    // import_palette: extension dispatch (any letter case; unknown / missing extensions are errors; there is none for ICE)
+    for _ in 0..(8 * scale) {
+        let n = rng.below(6) as usize;
+        let spec = gen_spec(&mut rng, n, false);
+        for (f, exts) in [("pal", ["pal", "PAL", "Pal"]), ("gpl", ["gpl", "GPL", "gPl"]), ("txt", ["txt", "TXT", "tXT"]), ("hex", ["hex", "HEX", "Hex"])] {
+            let base = build(&spec).export_palette(&fmt_of(f));
+            let e = *rng.pick(&exts);
+            importext_case(run, e, &base, Some(f));
+        }
+        let ice = build(&spec).export_palette(&fmt_of("ice"));
+        importext_case(run, *rng.pick(&["ice", "ICE", "", "pa", "pall", "ase", "gp1"]), &ice, None);
+    }
+    importext_case(run, "hex", &[0xff, 0x30, 0x31], Some("hex"));
+    // invalid UTF-8 is an error in every importer
+    for f in FORMATS {
+        import_case(run, f, &[b'0', b'1', 0xff, b'2', b'3', b'4', b'5', b'\n'], "invalid-utf8");
+        import_case(run, f, &[0xc3], "invalid-utf8");
+    }
+    for t in ["", "#", "#12345", "#123456", "12345g123456", "x#A1b2C3y", "\u{ff11}23456", "#00000g", "ffFFff00"] {
+        colorhex_case(run, t);
+    }
+    for _ in 0..(10 * scale) {
+        let c = (rng.next() as u8, rng.next() as u8, rng.next() as u8);
+        let h = Color::new(c.0, c.1, c.2).to_hex();
+        run.case(&format!("palette tohex {}", hex6(c)), &shex(&h));
+        colorhex_case(run, &h);
     }
     for f in FORMATS {
         for t in ["", "\n", "\r\n", "JASC-PAL", "JASC-PAL\n0100\n1\n1 2 3", "GIMP Palette\n1 2 3\n4 5 6 n\n", "ICE Palette\r\n#Name: a\r\n#Name: b\r\n010203\r\n040506", ";x\nFF010203\n0102030\n"] {
